@@ -570,4 +570,27 @@ theorem smallestDistance_le (sqrt : α → α) (ms : List (Mod α)) (d : α) (h 
     have := k2 r (List.mem_flatMap.mpr ⟨m, hm, hr⟩)
     exact ⟨le_trans hdd this.1, le_trans hdd this.2⟩
 
+/-! ### small list lemmas used by the document-level statements of `FV/Props/C05.lean` -/
+
+theorem forall₂_self_map {β γ : Type} {R : β → γ → Prop} (f : β → γ) (l : List β) (h : ∀ x ∈ l, R x (f x)) :
+    List.Forall₂ R l (l.map f) := by
+  induction l with
+  | nil => exact List.Forall₂.nil
+  | cons x xs ih => exact List.Forall₂.cons (h x List.mem_cons_self) (ih fun y hy => h y (List.mem_cons_of_mem _ hy))
+
+theorem forall₂_mem_right {β γ : Type} {R : β → γ → Prop} {l1 : List β} {l2 : List γ} (h : List.Forall₂ R l1 l2)
+    {b : γ} (hb : b ∈ l2) : ∃ a ∈ l1, R a b := by
+  induction h with
+  | nil => cases hb
+  | @cons a b' _ _ hab _ ih =>
+    rcases List.mem_cons.mp hb with rfl | hb
+    · exact ⟨a, List.mem_cons_self, hab⟩
+    · obtain ⟨a', ha', hr⟩ := ih hb; exact ⟨a', List.mem_cons_of_mem _ ha', hr⟩
+
+theorem zip_self_map {β γ δ : Type} (f : β → γ) (g : β × γ → δ) (l : List β) :
+    (l.zip (l.map f)).map g = l.map fun e => g (e, f e) := by
+  induction l with
+  | nil => rfl
+  | cons x xs ih => simp [ih]
+
 end FV.NL
